@@ -68,6 +68,9 @@ UseCfg == /\ cfgobj' = (IF Fault = "cfg_obj_written" THEN [ns |-> "s", ew |-> "e
 AskLayout == asked' = TRUE /\ Step(Op("ask_layout", "-", "-")) /\ UNCHANGED <<mc, usecache, cache, result, held, cfgobj, dry>>
 \* parse(commit=False, other settings) on the kept description's tracts and on the kept tract: a preview, nothing stays
 DryRun == dry' = TRUE /\ Step(Op("dry_run", "-", "-")) /\ UNCHANGED <<mc, usecache, cache, result, held, cfgobj, asked>>
+\* a description is created with a config text that holds an unknown setting name: rejected (ValueError), every time,
+\* and nothing stays behind
+BadConfig == Step(Op("bad_config", "-", "-")) /\ UNCHANGED <<mc, usecache, cache, result, held, cfgobj, asked, dry>>
 Probe == \E p \in Probes :
            /\ result' = (IF \E k \in Reads(p) : k \in DOMAIN cache /\ cache[k] = "bad" THEN [p |-> p, ns |-> "corrupt", ew |-> "corrupt"]
                          ELSE IF Fault = "freeze_default" THEN Pure(p, Default)
@@ -81,7 +84,7 @@ Probe == \E p \in Probes :
            \* (held_parse parses the held object, or a new one if there is none; the object stays)
            /\ held' = IF p = "held_parse" /\ held = NoHeld THEN mc ELSE held
            /\ Step(Op("probe", p, "-")) /\ UNCHANGED <<mc, usecache, cfgobj, asked, dry>>
-Next == SetMC \/ RestoreMC \/ ClearCache \/ SetUseCache \/ ParseOther \/ MakeTRS \/ Mutate \/ Hold \/ UseCfg \/ AskLayout \/ DryRun \/ Probe
+Next == SetMC \/ RestoreMC \/ ClearCache \/ SetUseCache \/ ParseOther \/ MakeTRS \/ Mutate \/ Hold \/ UseCfg \/ AskLayout \/ DryRun \/ BadConfig \/ Probe
 Spec == Init /\ [][Next]_vars
 
 CacheSound == \A k \in DOMAIN cache : cache[k] = "ok"
